@@ -15,7 +15,7 @@ Require Import Arith Lia List Bool ZArith QArith Qcanon.
 From TK Require Import Mat_Sums Mat_Core Mat_Qc Mat_EigSelect EigSelect Mat_EigSelect_Tie
                        Proj_Model Proj_Spec Proj_Proof
                        Pca_Model Pca_Spec Pca_Proof Pca_Proof_Qc Spectral_KyFan Pca_Proof_Opt Spectral_Randomized Pca_Proof_Select Pca_Proof_Sign Pca_Proof_Recon
-                       Spectral_GramDual Pca_Proof_Spectrum
+                       Spectral_GramDual Pca_Proof_Spectrum Proj_Proof_Range Pca_Proof_Scale
                        PcaEmbed Pca_Tie.
 Import ListNotations.
 Local Open Scope nat_scope.
@@ -616,3 +616,39 @@ Proof.
   destruct (@pca_matrix_exec_ok Qc QcOps QcField 4 2 ex6_X W) as [E _].
   eexists. split; [exact E|]. apply (model_cov_passes 4 2 ex6_X _ ltac:(lia) W E).
 Qed.
+
+(* 12. (wave 2) scale equivariance of the whole pipeline: for ANY s, the mean of s X is s * mean, the
+       covariance — the specification AND what compute_mean + compute_covariance_matrix return — is
+       s^2 * covariance, the same P meets the eigen contract with the eigenvalues scaled by s^2 (and
+       conversely when s <> 0), and the embedding is scaled by s.  No absolute magnitude may enter
+       anywhere between the data and the embedding; the check evaluates runs on 2^k X (k in [-60, 60])
+       after undoing the (exact) scaling. *)
+Theorem C06_scale_equivariant :
+  forall (F : Type) (Fo : FieldOps F) (Ff : IsField F) (N D d : nat) (s : F) (X P : mat F) (lam : vec F),
+    (forall t, mean_vec N (mscaleX s X) t = (s * mean_vec N X t)%F) /\
+    (forall i j, cov_spec N (mscaleX s X) i j = (s * s * cov_spec N X i j)%F) /\
+    (of_nat N <> 0%F -> forall i j, pca_matrix N (mscaleX s X) i j = (s * s * pca_matrix N X i j)%F) /\
+    (eig_contract D d (cov_spec N X) P lam ->
+     eig_contract D d (cov_spec N (mscaleX s X)) P (fun a => (s * s * lam a)%F)) /\
+    (s <> 0%F -> eig_contract D d (cov_spec N (mscaleX s X)) P (fun a => (s * s * lam a)%F) ->
+     eig_contract D d (cov_spec N X) P lam) /\
+    (forall k a, pca_embedding N D (mscaleX s X) P k a = (s * pca_embedding N D X P k a)%F).
+Proof. exact @pca_scale_equivariant_all. Qed.
+Print Assumptions C06_scale_equivariant.
+
+Example C06_scale_nonvacuous :
+  exists (P : mat Qc) (lam : vec Qc), eig_contract 1 1 (cov_spec 2 (mof [[qz 1]; [qz 3]])) P lam /\ qz 2 <> 0%F.
+Proof.
+  exists (fun _ _ => qz 1), (fun _ => qz 1). split.
+  - split; intros i j Hi Hj; assert (i = 0) by lia; assert (j = 0) by lia; subst;
+      apply Qc_is_canon; vm_compute; reflexivity.
+  - intros H. apply (f_equal this) in H. vm_compute in H. discriminate.
+Qed.
+
+(* uncorrelatedness and retained variance transform the same way *)
+Theorem C06_scale_uncorrelated_retained :
+  forall (F : Type) (Fo : FieldOps F) (Ff : IsField F) (N D d : nat) (s c : F) (Y C Q : mat F) (lam : vec F),
+    (uncorrelated N d Y lam -> uncorrelated N d (fun k a => (s * Y k a)%F) (fun a => (s * s * lam a)%F)) /\
+    retained D d (fun i j => (c * C i j)%F) Q = (c * retained D d C Q)%F.
+Proof. exact @scale_uncorrelated_retained_all. Qed.
+Print Assumptions C06_scale_uncorrelated_retained.
